@@ -297,6 +297,17 @@ impl Ctx {
         for n in self.notes.lock().unwrap().iter() {
             assumptions.push(n.clone());
         }
+        if let Ok(vs) = std::env::var("VERIF_VARIANTS") {
+            let mut arr = Vec::new();
+            for v in vs.split_whitespace() {
+                let p = format!("{}/evidence/variants/{}-{}.json", out_dir(), self.id, v);
+                match std::fs::read_to_string(&p).ok().and_then(|s| serde_json::from_str::<Value>(&s).ok()) {
+                    Some(j) => arr.push(json!({"variant": v, "evaluations": j["coverage"]["evaluations"], "distinct_nontrivial": j["coverage"]["distinct_nontrivial"], "violations": j["violations"], "wall_s": j["wall_s"], "build": j["coverage"]["variant"]})),
+                    None => arr.push(json!({"variant": v, "missing": true})),
+                }
+            }
+            coverage["simd_variants"] = json!(arr);
+        }
         let ev = json!({
             "property_id": self.id,
             "tier": self.tier.name(),
@@ -309,8 +320,12 @@ impl Ctx {
             "machinery_errors": machinery,
         });
         if !self.replaying() {
-            let _ = std::fs::create_dir_all(format!("{}/evidence", out_dir()));
-            let path = format!("{}/evidence/{}.json", out_dir(), self.id);
+            let _ = std::fs::create_dir_all(format!("{}/evidence/variants", out_dir()));
+            // a SIMD build variant writes a side file; the main (scalar) run folds them in
+            let path = match std::env::var("VERIF_VARIANT_NAME") {
+                Ok(v) if !v.is_empty() => format!("{}/evidence/variants/{}-{}.json", out_dir(), self.id, v),
+                _ => format!("{}/evidence/{}.json", out_dir(), self.id),
+            };
             if let Err(e) = std::fs::write(&path, serde_json::to_string_pretty(&ev).unwrap()) {
                 eprintln!("cannot write evidence {path}: {e}");
                 return 2;
